@@ -519,6 +519,8 @@ class PE:
                 k = q[2]
             else:
                 k = q
+            if v.kind == "zero":
+                return C(0)           # inside a zeroinitializer: every scalar member is zero / null
             if not isinstance(k, int) or v.kind not in ("array", "struct") or v.args is None or not (0 <= k < len(v.args)):
                 return None
             v = v.args[k]
@@ -527,7 +529,7 @@ class PE:
             v = v.args[0]
         if v.kind == "int":
             return C(v.v)
-        if v.kind == "null":
+        if v.kind in ("null", "zero"):
             return C(0)
         # a pointer to another global (a table of string literals / function pointers)
         w = v
